@@ -58,6 +58,11 @@ pub enum TOp {
     /// like Injector, but first the holder offers a fake of the wrong type (refused with a panic
     /// that the holder catches) and goes on using the same injector
     InjectorAfterRefusal { calls: u8 },
+    /// the thread leaves itself a pending wake-up (`thread::current().unpark()`), as a channel
+    /// receive, a scoped-thread join or a hand-made `block_on` may: the next `park()` anybody does
+    /// on this thread returns at once.  A guard handed out on the strength of such a return is not
+    /// a guard.
+    PendingUnpark,
 }
 
 #[derive(Serialize, Deserialize, Clone, Debug, Hash, PartialEq, Eq)]
@@ -258,6 +263,10 @@ fn run_op(t: usize, op: &TOp, foreign: &std::sync::Mutex<Vec<String>>) -> Result
                 Ok(()) => Ok(()),
             }
         }
+        TOp::PendingUnpark => {
+            std::thread::current().unpark();
+            Ok(())
+        }
         TOp::Spin(k) => {
             for _ in 0..*k {
                 std::hint::spin_loop();
@@ -426,6 +435,7 @@ pub fn execute(c: &ThreadCase) -> ThreadObs {
                 TOp::Preventer { exit_panic: false, .. } => "preventer/drop",
                 TOp::Preventer { exit_panic: true, .. } => "preventer/panic",
                 TOp::Spin(_) => "spin",
+                TOp::PendingUnpark => "pending-unpark-token",
                 TOp::InjectorRestoreFault { .. } => "injector/restoration-fault",
                 TOp::PreventerHold { .. } => "preventer/drop",
                 TOp::InjectorAfterRefusal { .. } => "injector/after-refusal",
@@ -446,6 +456,7 @@ pub fn strategy() -> impl Strategy<Value = ThreadCase> {
         2 => (0u8..3, 0u8..=12).prop_map(|(calls, extra)| TOp::InjectorUnmet { calls, extra }),
         3 => (0u8..6, prop::bool::weighted(0.25)).prop_map(|(calls, exit_panic)| TOp::Preventer { calls, exit_panic }),
         1 => (0u16..400).prop_map(TOp::Spin),
+        1 => Just(TOp::PendingUnpark),
         1 => (0u8..3).prop_map(|calls| TOp::InjectorRestoreFault { calls }),
         1 => (1u8..4).prop_map(|calls| TOp::InjectorAfterRefusal { calls }),
     ];
